@@ -624,6 +624,7 @@ func checkC08(c *Ctx) {
 	stackedWriters(c, "C08")
 	c08CloseRace(c)
 	c08StalledPeer(c)
+	c08StaleConnection(c)
 	c.SetRule("one case = one schedule of 2..6 concurrent Connection.Write calls on a real hap.Connection (forced: enumerated " +
 		"choice sequences over the stop points before-Write / in-Encrypt / in-socket-write; free: Gosched/sleep noise, optional " +
 		"hap.KeepAlive writer). non-trivial = a writer was parked or entered while another was inside. distinct = distinct event traces per configuration")
